@@ -1,0 +1,14 @@
+//go:build verif
+
+// ASSUMED contract for package identity needed by C15 (action/eth). Comment-only file, read by /verif/govc.
+
+package identity
+
+// The witness list of a chain is read by iterating the witness store; every witness is stored under a key that ends
+// in its address, so the addresses are pairwise distinct. Assumed (iteration over the State is not under contract);
+// the list is a fresh slice and nothing else changes. The length bound is the trivial one needed for 2*n not to
+// overflow an int (a slice of 24-byte slice headers cannot have 2^62 elements).
+//@ assume func (*WitnessStore).GetWitnessAddresses
+//@   modifies nothing
+//@   ensures err == nil ==> fresh(arr(result0)) && 2 * len(result0) <= 9223372036854775807
+//@   ensures err == nil ==> forall i int, j int :: 0 <= i && i < j && j < len(result0) ==> str(result0[i]) != str(result0[j])
